@@ -20,13 +20,13 @@ EXEC = {
     'C02': dict(owns=['C02', 'C02T', 'C02M'], decide='C02_Exact (MC); bag of logged (path,code,type) = RefIssues; lock-step issue/swallow events',
                 q='file:0,universe:1200,random:500,nan:0,flat:200', t='file:0,universe:0,random:12000,nan:0,flat:5000'),
     'C05': dict(owns=['C05'], decide='C05_NonInterference, M_DestAll (MC); logged issues off catching paths = reference of Uncatch(schema); destination of every catching node = reference in every run (catch-dest)',
-                q='file:0,universe:1200,random:500,catch:400', t='file:0,universe:0,random:8000,catch:6000'),
+                q='file:0,universe:1200,random:500,catch:400,catchpt:200', t='file:0,universe:0,random:8000,catch:6000,catchpt:3000'),
     'C04': dict(owns=['C04', 'C02T'], decide='TableOK (the reference obeys the literal statement of C04 on every row of Tab_C04), C04_Machine (MC over all rows); '
                 'every row replayed on the real library: required/not_nil bag, destination = reference, recording tests show whether tests ran',
-                q='file:0,random:300,flat:200', t='file:0,random:6000,flat:5000', table='Tab_C04'),
+                q='file:0,random:300,flat:200,emptydoc:60', t='file:0,random:6000,flat:5000,emptydoc:600', table='Tab_C04'),
     'C10': dict(owns=['C10'], decide='issue map structure on every logged result (key = path, $first = first recorded issue event, sanitizers), lock-step field events '
                 '(schema key -> resolved input key, KeyOf tag priority at every depth), every issue path in NodePathsOf(case) (node paths + IssuePath overrides incl. Required/NotNil), right issues under wrong paths (issue-paths)',
-                q='file:0,tags:900,random:300,long:0', t='file:0,tags:12000,random:4000,long:0'),
+                q='file:0,tags:900,random:300,long:0,deep:0', t='file:0,tags:12000,random:4000,long:0,deep:0'),
     'C12': dict(owns=['C12'], decide='C12_PTOnlyWhenClean, C12_CallbackArgs (MC); lock-step test/pt events with argument class, value seen and ctx.Get snapshot; how PostTransform/Preprocess errors (plain, ZogIssue, error wrapping a ZogIssue) become issues',
                 q='file:0,universe:600,callbacks:600,preprocess:300,random:200', t='file:0,universe:0,callbacks:10000,preprocess:4000,random:4000'),
     'C13': dict(owns=['C13'], decide='pairs Validate(&v) / Parse(toMap(v), &fresh) on fully populated values: TLC compares the two logged results (path, code, type, message, value) '
